@@ -68,10 +68,62 @@ def _run_one(args):
   return v['name'], 'ok', 'reported by %s' % rules
 
 
+def load_seeds(prop):
+  """Kept seeded changes for `prop` (/verif/seeded/<id>/patch.diff): replayed
+  in memory against the current tree; each must add a violation."""
+  import glob  # pylint: disable=g-import-not-at-top
+  import json  # pylint: disable=g-import-not-at-top
+  out = []
+  base = os.path.join(os.path.dirname(os.path.dirname(os.path.abspath(
+      __file__))), 'seeded')
+  for d in sorted(glob.glob(os.path.join(base, '*'))):
+    pf, mf = os.path.join(d, 'patch.diff'), os.path.join(d, 'meta.json')
+    if not (os.path.isfile(pf) and os.path.isfile(mf)):
+      continue
+    try:
+      with open(mf, encoding='utf-8') as f:
+        meta = json.load(f)
+    except ValueError:
+      continue
+    if meta.get('property') == prop:
+      out.append((os.path.basename(d), pf))
+  return out
+
+
+def _run_seed(args):
+  prop, name, pf, baseline = args
+  baseline = set(baseline)
+  from sa import check  # pylint: disable=g-import-not-at-top
+  from sa import patchlib  # pylint: disable=g-import-not-at-top
+
+  def read(rel):
+    with open(os.path.join(core.REPO_DIR, rel), encoding='utf-8') as f:
+      return f.read()
+  try:
+    with open(pf, encoding='utf-8') as f:
+      ov = patchlib.overrides_for(f.read(), read)
+    for rel, src in ov.items():
+      if rel.endswith('.py'):
+        compile(src, rel, 'exec')
+  except (patchlib.PatchError, OSError, SyntaxError, IndexError) as e:
+    return name, 'skipped', 'seed does not apply to the current tree: %s' % e
+  try:
+    _, rep = check.run_property(prop, 'quick', write=False, overrides=ov)
+  except core.AnalysisError as e:
+    return name, 'error', 'ANALYSIS-ERROR on seed: %s' % e
+  new_v = [x for x in rep.violations if (x['rule'], x['key']) not in baseline]
+  if new_v:
+    return name, 'ok', 'reported by %s' % sorted(set(x['rule'] for x in new_v))
+  if rep.analysis_errors:
+    return name, 'error', 'ANALYSIS-ERROR on seed: %s' % '; '.join(
+        rep.analysis_errors)[:300]
+  if baseline:
+    return name, 'skipped', 'current tree already violates; no new report'
+  return name, 'fail', 'seeded change not reported'
+
+
 def run_for(prop, jobs=None, baseline=None):
   variants = load_variants(prop)
-  if not variants:
-    return {'variants': 0}
   if baseline is None:
     from sa import check  # pylint: disable=g-import-not-at-top
     _, rep = check.run_property(prop, 'quick', write=False)
@@ -81,8 +133,17 @@ def run_for(prop, jobs=None, baseline=None):
   with concurrent.futures.ProcessPoolExecutor(max_workers=jobs) as ex:
     for r in ex.map(_run_one, [(prop, v, tuple(baseline)) for v in variants]):
       results.append(r)
-  bad = [r for r in results if r[1] in ('fail', 'error')]
+  seeds = load_seeds(prop)
+  seed_results = []
+  with concurrent.futures.ProcessPoolExecutor(max_workers=jobs) as ex:
+    for r in ex.map(_run_seed, [(prop, n, pf, tuple(baseline))
+                                for n, pf in seeds]):
+      seed_results.append(r)
+  bad = [r for r in results + seed_results if r[1] in ('fail', 'error')]
   summary = {
+      'seeded_changes_replayed': len(seeds),
+      'seeded_changes_reported': sum(1 for r in seed_results if r[1] == 'ok'),
+      'seeded_results': ['%s: %s (%s)' % r for r in seed_results],
       'variants': len(variants),
       'fired_as_expected': sum(
           1 for v, r in zip(variants, results)
